@@ -303,6 +303,27 @@ def run(ctx):
     # the retry below edits the stored request (COOKIE first) and serialises it again: to_bytes must not hand back an earlier result
     from .c05 import to_bytes_is_fresh
     to_bytes_is_fresh(ctx, 'Q4')
+    # a cookie placed first stays first when the same request is repeated once more for INVALID_KE_PAYLOAD (COOKIE, then INVALID_KE):
+    # the retry sends the payload sequence of the stored request, in its order - not a list put together again around SA and KE
+    hk = ctx.func('ikesa.IkeSa.handle_invalid_ke')
+    HK = ctx.sval(hk)
+    from ..sval import strip_ids as _sid
+    from .. import tq
+    gcalls = HK.calls_to(qual='ikesa.IkeSa.generate_request')
+    ctx.floor('Q4 generate_request call in handle_invalid_ke', len(gcalls), 1)
+    stored = ('attr', ('param', 'self'), 'request')
+
+    def stored_sequence(t):
+        if t[0] == 'cond' and len(t) == 4:
+            return stored_sequence(t[2]) and stored_sequence(t[3])
+        if tq.is_call(t, 'builtins.list') and len(t[3]) == 1:
+            return stored_sequence(t[3][0][1])
+        return t in (('attr', stored, 'payloads'), ('attr', stored, 'encrypted_payloads'))
+    for c in gcalls:
+        pt = _sid(c.args.get('payloads', ('undef',)))
+        ctx.check(stored_sequence(pt), 'Q4', 'the INVALID_KE_PAYLOAD retry repeats the payload sequence of the stored request in its order '
+                  '(a cookie placed first stays first)', key=('Q4', 'retry-order'), site=ctx.site(hk, c.node),
+                  detail={'payloads': tq.text(pt, 300)})
     ir = ctx.func('ikesa.IkeSa.process_ike_sa_init_response')
     gi = esc.add_exception_edges(ir)
     ck = None
